@@ -166,6 +166,10 @@ func class(c kase) string {
 
 func main() {
 	vh.Quiet()
+	if len(os.Args) > 1 && os.Args[1] == "sets" {
+		setsMain()
+		return
+	}
 	if len(os.Args) < 3 || os.Args[1] != "rules" {
 		vh.Fatal("usage: c18 rules <tlc-output>")
 	}
